@@ -471,7 +471,8 @@ fn json_mutate(json: &[u8], m: &Value) -> Vec<u8> {
             splice(t.0, t.1, &w)
         }
         "array" => {
-            let arrs: Vec<&(usize, usize, u8)> = toks.iter().filter(|t| t.2 == b'[').collect();
+            let outer = m["outer"].as_bool().unwrap_or(false);
+            let arrs: Vec<&(usize, usize, u8)> = toks.iter().filter(|t| t.2 == b'[' && (!outer || matches!(json.get(t.1), Some(b'{') | Some(b'[')))).collect();
             if arrs.is_empty() {
                 return json.to_vec();
             }
@@ -485,7 +486,8 @@ fn json_mutate(json: &[u8], m: &Value) -> Vec<u8> {
         }
         "array-del" => {
             // remove the first n elements of the k-th array (a shorter sequence than the type holds)
-            let arrs: Vec<&(usize, usize, u8)> = toks.iter().filter(|t| t.2 == b'[').collect();
+            let outer = m["outer"].as_bool().unwrap_or(false);
+            let arrs: Vec<&(usize, usize, u8)> = toks.iter().filter(|t| t.2 == b'[' && (!outer || matches!(json.get(t.1), Some(b'{') | Some(b'[')))).collect();
             if arrs.is_empty() {
                 return json.to_vec();
             }
@@ -565,6 +567,13 @@ fn json_cases(sch: &mut Sched, base: &Value, big: bool, quick: bool) -> Vec<Valu
         for n in [1u64, 3, 64, 100_000] {
             v.push(mk(json!({"k": "array-del", "tok": tok, "n": n})));
         }
+    }
+    // arrays of structures (the sequences of signatures, proofs, generators): shorter and longer
+    for tok in 0..4u64 {
+        for n in [1u64, 2, 64, 100_000] {
+            v.push(mk(json!({"k": "array-del", "tok": tok, "n": n, "outer": true})));
+        }
+        v.push(mk(json!({"k": "array", "tok": tok, "n": 1, "outer": true})));
     }
     for _ in 0..4 {
         v.push(mk(json!({"k": "trunc", "at": sch.u64() % 5000})));
